@@ -70,40 +70,45 @@ def observe(b, want_rows=True):
     rng = np.random.RandomState(12345)
     pts = [(rng.uniform(0.5, 1.5, o.nx), o.pvec), (rng.uniform(-1.5, -0.5, o.nx), o.pvec)]
     o.pts = pts
-    m = ocp._method
-    N = m.N if hasattr(m, 'N') else 0
     ing = {}
+    parts = getattr(b, 'parts', None)
+    multi = parts is not None
+    for si, part in enumerate(parts if multi else [b]):
+        pre = ('%d:' % (si + 1)) if multi else ''
+        st = part.stage if multi else ocp
+        m = st._method
+        N = m.N if hasattr(m, 'N') else 0
 
-    def reg(kind, i, arr, cols):
-        loc = locate(arr, opti, pts)
-        for c in range(cols):
-            ing[(kind, i, c)] = loc[c]
+        def reg(kind, i, arr, cols):
+            loc = locate(arr, opti, pts)
+            for c in range(cols):
+                ing[(pre + kind, i, c)] = loc[c]
 
-    if N:
-        for i, s in enumerate(b.x):
-            _, xs = quiet(ocp.sample, s, grid='control')
+        if not N: continue
+        for i, s in enumerate(part.x):
+            _, xs = quiet(st.sample, s, grid='control')
             reg('x', i, xs, N + 1)
-        for i, s in enumerate(b.u):
-            _, us = quiet(ocp.sample, s, grid='control')
+        for i, s in enumerate(part.u):
+            _, us = quiet(st.sample, s, grid='control')
             reg('u', i, us, N)
-        for i, s in enumerate(b.v):
-            kind = b.decl['vars'][i]['kind']
+        for i, s in enumerate(part.v):
+            kind = part.decl['vars'][i]['kind']
             if kind == 'g':
-                reg('v', i, quiet(ocp.value, s), 1)
+                reg('v', i, quiet(st.value, s), 1)
             else:
-                _, vs = quiet(ocp.sample, s, grid='control')
+                _, vs = quiet(st.sample, s, grid='control')
                 reg('v', i, vs, N if kind == 'c' else N + 1)
         deg = getattr(m, 'degree', 0) if type(m).__name__ == 'DirectCollocation' else 0
         if deg:
             M = m.M
-            for i, s_ in enumerate(b.x):
-                reg('xi', i, quiet(ocp.sample, s_, grid='integrator')[1], N * M + 1)
-                reg('xr', i, quiet(ocp.sample, s_, grid='integrator_roots')[1], N * M * deg)
-            for i, s_ in enumerate(b.z):
-                reg('zr', i, quiet(ocp.sample, s_, grid='integrator_roots')[1], N * M * deg)
-        reg('T', 0, quiet(ocp.value, ocp.T), 1)
-        reg('t0', 0, quiet(ocp.value, ocp.t0), 1)
-        ts, dtc = quiet(ocp.sample, ocp.DT_control, grid='control')
+            for i, s_ in enumerate(part.x):
+                reg('xi', i, quiet(st.sample, s_, grid='integrator')[1], N * M + 1)
+                reg('xr', i, quiet(st.sample, s_, grid='integrator_roots')[1], N * M * deg)
+            for i, s_ in enumerate(part.z):
+                reg('zr', i, quiet(st.sample, s_, grid='integrator_roots')[1], N * M * deg)
+        reg('T', 0, quiet(st.value, st.T), 1)
+        reg('t0', 0, quiet(st.value, st.t0), 1)
+        ts, dtc = quiet(st.sample, st.DT_control, grid='control')
         reg('tn', 0, ts, N + 1)        # node times (decision variables when t0 is localized)
         Tl = getattr(m, 'T_local', None)
         if Tl is not None and all(isinstance(e, ca.MX) for e in Tl):
@@ -140,6 +145,7 @@ def row_meta(o):
         rows[r]['cols'].append(c)
     for r in rows:
         r['classes'] = sorted({o.owner[c][0] for c in r['cols'] if c in o.owner})
+        r['kinds'] = sorted({k.split(':')[-1] for k in r['classes']})
         r['unowned'] = sum(1 for c in r['cols'] if c not in o.owner)
     return rows
 
@@ -178,7 +184,7 @@ def slacks_by_cid(o, xv, pv=None):
             if np.isfinite(ub[i]): vals.append(ub[i] - g[i])
             if np.isfinite(lb[i]): vals.append(g[i] - lb[i])
             d['ineq'].extend(vals); kind = 'ineq'
-        recs.append({'row': i, 'cid': cid, 'kind': kind, 'vals': vals, 'classes': o.rows[i]['classes']})
+        recs.append({'row': i, 'cid': cid, 'kind': kind, 'vals': vals, 'classes': o.rows[i]['classes'], 'kinds': o.rows[i]['kinds']})
     return f, out, recs
 
 
